@@ -378,6 +378,20 @@ impl Disk
             let data_blocks = fimg.chunks.len();
             let fs_type_usize = fimg.get_ftype();
             let eof_usize = fimg.get_eof();
+            // the directory keeps block numbers and the bytes remaining in 16 bits, and a chunk is one block:
+            // refuse what cannot be recorded before anything is written
+            if data_blocks > u16::MAX as usize {
+                log::error!("too many chunks for a Pascal volume");
+                return Err(Box::new(Error::NoRoom));
+            }
+            if eof_usize > BLOCK_SIZE*data_blocks || BLOCK_SIZE*data_blocks - eof_usize > u16::MAX as usize {
+                log::error!("end of file is inconsistent with the number of chunks");
+                return Err(Box::new(Error::BadFormat));
+            }
+            if fimg.chunks.values().any(|chunk| chunk.len() > BLOCK_SIZE) {
+                log::error!("chunk is longer than a block");
+                return Err(Box::new(Error::BadFormat));
+            }
             if let Some(fs_type) = FileType::from_usize(fs_type_usize) {
                 if let Some(beg) = self.get_available_blocks(data_blocks as u16)? {
                     let i = u16::from_le_bytes(dir.header.num_files) as usize;
